@@ -2,10 +2,14 @@
 //!
 //! raw case: `k:<hex key part> g:<hex signature part> t:<u64 timestamp> p:<payload: h:<hex> | f:<len>:<seed>> r:<hex 32-byte secret of another key>`
 //! The packet bytes are `key ++ sig ++ be8(t) ++ payload` (the parts may have odd lengths).
+//! second case kind (from_txt_strings): `X:<hex 32-byte secret> n:<hex utf-8 name> v:<'-' | s<hex>,s<hex>,...> r:<hex secret of another key>`
+//! `run` calls `SignedPacket::from_txt_strings(secret, name, values, 30)`, inspects the result with every accessor, and then
+//! offers the resulting bytes (split into key/signature/timestamp/payload) to the byte constructors exactly like the first kind.
+//! The timestamp/signature come from the real clock: they are taken from the observed packet (the model treats them as given).
 //! Public API only.  `c32 real` prints a raw case of a packet signed by the crate itself.
 use hcommon::*;
 use iroh_base::{PublicKey, SecretKey, Signature};
-use iroh_dns::pkarr::{SignedPacket, SignedPacketVerifyError, Timestamp};
+use iroh_dns::pkarr::{SignedPacket, SignedPacketBuildError, SignedPacketVerifyError, Timestamp};
 
 /// The harness's own copy of the BEP44 encoding.  It is tied to the crate by signatures:
 /// packets signed by the crate must verify against it (corpus), packets signed over it must be
@@ -48,7 +52,138 @@ fn gen_payload(rng: &mut Rng, secret: &SecretKey, max_strings: u64) -> Vec<u8> {
 
 const TS: &[u64] = &[0, 1, 9, 10, 99, 100, 1_700_000_000_000_000, 1 << 63, u64::MAX, u64::MAX - 1, 999, 1000];
 
+/// What `from_txt_strings` does, redone with simple_dns directly (NOT via SignedPacket): `None` = the DNS library
+/// refuses a TXT string or fails to build, `Some(payload)` otherwise.  `normalize_name` is private: own copy.
+fn my_normalize(origin: &str, name: &str) -> String {
+    let name = name.strip_suffix('.').unwrap_or(name);
+    let last = name.split('.').last().unwrap_or("");
+    if last == origin {
+        return name.to_string();
+    }
+    if last == "@" || last.is_empty() {
+        return origin.to_string();
+    }
+    format!("{name}.{origin}")
+}
+
+fn my_build(pk: &PublicKey, name: &str, values: &[String]) -> Option<Vec<u8>> {
+    use simple_dns::{rdata::RData, Name, Packet, ResourceRecord, CLASS};
+    let normalized = my_normalize(&pk.to_z32(), name);
+    let dns_name = Name::new_unchecked(&normalized).into_owned();
+    let mut packet = Packet::new_reply(0);
+    for v in values {
+        let mut txt = simple_dns::rdata::TXT::new();
+        txt.add_string(v).ok()?;
+        packet.answers.push(ResourceRecord::new(dns_name.clone(), CLASS::IN, 30, RData::TXT(txt.into_owned())));
+    }
+    packet.build_bytes_vec_compressed().ok()
+}
+
+fn rand_label(rng: &mut Rng, l: usize) -> String {
+    (0..l).map(|_| (b'a' + rng.below(26) as u8) as char).collect()
+}
+
+fn rand_label_r(rng: &mut Rng, lo: u64, hi: u64) -> String {
+    let l = rng.range(lo, hi) as usize;
+    rand_label(rng, l)
+}
+fn rand_label_p(rng: &mut Rng, ls: &[usize]) -> String {
+    let l = *rng.pick(ls);
+    rand_label(rng, l)
+}
+
+/// Names at and beyond the DNS limits (label 63, name 253..255 after appending ".<52 char origin>").
+fn gen_name(rng: &mut Rng) -> String {
+    match rng.below(20) {
+        0 => "_iroh".into(),
+        1 => (*rng.pick(&["@", ".", "", "a.@", "@.a"])).into(),
+        2 => (*rng.pick(&["a..b", ".a", "a.", "..", "a...", "_iroh..x"])).into(),
+        3 => (*rng.pick(&["日本語.é", "ü", "a.日本", "_iroh.\u{1F600}", "a b.c\"d", "a\\.b"])).into(),
+        4 => "a.b.c".into(),
+        5 => rand_label(rng, 63),
+        6 | 7 => rand_label(rng, 64),
+        8 => rand_label(rng, 65),
+        9 => format!("_iroh.{}", rand_label_p(rng, &[63usize, 64, 100, 255, 256])),
+        10 => format!("{}.x", rand_label_r(rng, 60, 70)),
+        11 | 12 => {
+            // normalized name = name + "." + 52-char origin: total 252..257 for name length 199..204
+            let total = *rng.pick(&[199usize, 200, 201, 202, 203, 204]);
+            let mut n = String::new();
+            while n.len() < total {
+                let l = (total - n.len()).min(*rng.pick(&[30usize, 50, 63]));
+                n.push_str(&rand_label(rng, l));
+                if n.len() + 1 < total {
+                    n.push('.');
+                }
+            }
+            n
+        }
+        13 => {
+            // the name itself 253..256 bytes (valid labels)
+            let total = *rng.pick(&[253usize, 254, 255, 256]);
+            let mut n = String::new();
+            while n.len() < total {
+                let l = (total - n.len()).min(63);
+                n.push_str(&rand_label(rng, l));
+                if n.len() + 1 < total {
+                    n.push('.');
+                }
+            }
+            n
+        }
+        14 => rand_label_r(rng, 1, 62),
+        15 => format!("{}.{}", rand_label(rng, 64), rand_label(rng, 3)),
+        16 => format!("{}é", rand_label_p(rng, &[61usize, 62, 63])),
+        _ => (*rng.pick(&["_iroh", "foo.bar", "_iroh._udp", "x"])).into(),
+    }
+}
+
+fn gen_values(rng: &mut Rng, pk: &PublicKey, name: &str) -> Vec<String> {
+    match rng.below(10) {
+        0 => Vec::new(),
+        1 => vec![rand_label_p(rng, &[254usize, 255, 256, 300])],
+        2 => (0..rng.range(1, 4)).map(|_| String::new()).collect(),
+        3 | 4 => {
+            // many records, around and beyond the 1000-byte payload limit
+            let n = rng.range(5, 40);
+            (0..n).map(|_| rand_label_r(rng, 0, 80)).collect()
+        }
+        5 => {
+            // payload of exactly 999 / 1000 / 1001 bytes when the last string can be adjusted
+            let mut v: Vec<String> = (0..rng.range(4, 9)).map(|_| rand_label_r(rng, 100, 200)).collect();
+            v.push(rand_label(rng, 100));
+            let target = *rng.pick(&[999i64, 1000, 1001]);
+            if let Some(b) = my_build(pk, name, &v) {
+                let l = 100 + target - b.len() as i64;
+                if (0..=255).contains(&l) {
+                    v.pop();
+                    v.push(rand_label(rng, l as usize));
+                }
+            }
+            v
+        }
+        6 => vec!["日本語=é".to_string(), rand_label(rng, 255)],
+        _ => (0..rng.range(1, 5)).map(|_| rng.pick(TXT).to_string()).collect(),
+    }
+}
+
+fn generate_txt(rng: &mut Rng) -> String {
+    let sk: [u8; 32] = rng.bytes(32).try_into().unwrap();
+    let pk = SecretKey::from_bytes(&sk).public();
+    let name = gen_name(rng);
+    let values = gen_values(rng, &pk, &name);
+    let v = if values.is_empty() {
+        "-".to_string()
+    } else {
+        values.iter().map(|s| format!("s{}", hex(s.as_bytes()))).collect::<Vec<_>>().join(",")
+    };
+    format!("X:{} n:{} v:{v} r:{}", hex(&sk), hex(name.as_bytes()), hex(&rng.bytes(32)))
+}
+
 fn generate(rng: &mut Rng, _i: u64, _n: u64) -> String {
+    if rng.chance(1, 4) {
+        return generate_txt(rng);
+    }
     let sk: [u8; 32] = rng.bytes(32).try_into().unwrap();
     let secret = SecretKey::from_bytes(&sk);
     let kind = rng.below(18);
@@ -167,6 +302,10 @@ struct Obs {
 }
 
 fn observe(p: &SignedPacket) -> Obs {
+    observe_with(p, &["_iroh"])
+}
+
+fn observe_with(p: &SignedPacket, names: &[&str]) -> Obs {
     Obs {
         bytes: p.as_bytes().to_vec(),
         key: catch(|| p.public_key().as_bytes().to_vec()),
@@ -175,7 +314,9 @@ fn observe(p: &SignedPacket) -> Obs {
         payload: catch(|| p.encoded_packet().to_vec()),
         relay: catch(|| p.to_relay_payload()),
         txt: catch(|| {
-            let _ = p.txt_records("_iroh");
+            for n in names {
+                let _ = p.txt_records(n);
+            }
             let _ = p.all_txt_records();
         }),
         display: catch(|| {
@@ -275,6 +416,9 @@ fn run(raw: &str) -> (String, String) {
     let mut t = 0u64;
     let mut p = Bytes::Hex(Vec::new());
     let mut secret2 = SecretKey::from_bytes(&[3u8; 32]);
+    let mut x_secret: Option<SecretKey> = None;
+    let mut x_name = String::new();
+    let mut x_values: Vec<String> = Vec::new();
     for tok in raw.split_whitespace() {
         let (tag, v) = tok.split_once(':').expect("token");
         match tag {
@@ -283,8 +427,49 @@ fn run(raw: &str) -> (String, String) {
             "t" => t = v.parse().expect("timestamp"),
             "p" => p = Bytes::parse(v),
             "r" => secret2 = SecretKey::from_bytes(&unhex(v).try_into().expect("32 bytes")),
+            "X" => x_secret = Some(SecretKey::from_bytes(&unhex(v).try_into().expect("32 bytes"))),
+            "n" => x_name = String::from_utf8(unhex(v)).expect("utf-8 name"),
+            "v" => {
+                if v != "-" {
+                    x_values = v
+                        .split(',')
+                        .map(|s| String::from_utf8(unhex(s.strip_prefix('s').expect("s<hex>"))).expect("utf-8 value"))
+                        .collect();
+                }
+            }
             _ => panic!("bad token {tok}"),
         }
+    }
+    // second case kind: the packet is built by from_txt_strings; its bytes become the parts of the case
+    let mut r_txt: Option<Caught<Result<Obs, u64>>> = None;
+    let mut x_build: Option<Vec<u8>> = None;
+    if let Some(sx) = &x_secret {
+        let pkx = sx.public();
+        x_build = match catch(|| my_build(&pkx, &x_name, &x_values)) {
+            Caught::Value(b) => b,
+            Caught::Panicked(_) => None,
+        };
+        let mut built: Option<SignedPacket> = None;
+        let r = catch(|| match SignedPacket::from_txt_strings(sx, &x_name, x_values.iter(), 30) {
+            Ok(pkt) => {
+                let o = observe_with(&pkt, &[x_name.as_str(), "_iroh", "@", "", "a..b", "x.y"]);
+                built = Some(pkt);
+                Ok(o)
+            }
+            Err(SignedPacketBuildError::DnsError { .. }) => Err(1),
+            Err(SignedPacketBuildError::PacketTooLarge { .. }) => Err(2),
+            Err(_) => Err(3),
+        });
+        if let Some(pkt) = &built {
+            let b = pkt.as_bytes();
+            if b.len() >= 104 {
+                k = b[..32].to_vec();
+                g = b[32..96].to_vec();
+                t = u64::from_be_bytes(b[96..104].try_into().unwrap());
+                p = Bytes::Hex(b[104..].to_vec());
+            }
+        }
+        r_txt = Some(r);
     }
     let ps = Parts { k, g, t: t.to_be_bytes().to_vec(), p: p.to_vec(), p_coq: p.coq() };
     let all = ps.all();
@@ -292,6 +477,20 @@ fn run(raw: &str) -> (String, String) {
 
     // tables of the primitives' real answers
     let mut points = vec![format!("C32.pt {} true", coq_hex(key2.as_bytes()))];
+    let mut txt_in = "None".to_string();
+    if let Some(sx) = &x_secret {
+        let pkx = sx.public();
+        points.push(format!(
+            "C32.pt {} {}",
+            coq_hex(pkx.as_bytes()),
+            coq_bool(PublicKey::try_from(&pkx.as_bytes()[..]).is_ok())
+        ));
+        txt_in = format!(
+            "(Some (C32.mkTxt {} {}))",
+            coq_hex(pkx.as_bytes()),
+            coq_opt(x_build.as_ref(), |b| ps.r(b))
+        );
+    }
     let mut verifs: Vec<String> = Vec::new();
     let mut dns: Vec<String> = Vec::new();
     let pk: Option<PublicKey> = if all.len() >= 32 { PublicKey::try_from(&all[..32]).ok() } else { None };
@@ -326,7 +525,7 @@ fn run(raw: &str) -> (String, String) {
         ));
     }
     let coq_in = format!(
-        "({}C32.mkIn sK sG {t} sP {} [{}] [{}] [{}])",
+        "({}C32.mkIn sK sG {t} sP {} [{}] [{}] [{}] {txt_in})",
         ps.lets(),
         coq_hex(key2.as_bytes()),
         points.join("; "),
@@ -375,13 +574,14 @@ fn run(raw: &str) -> (String, String) {
         }
     };
     let out = format!(
-        "({}C32.mkOut {} {} {} {} {})",
+        "({}C32.mkOut {} {} {} {} {} {})",
         ps.lets(),
         coq_obs(&ps, &r_from_bytes),
         coq_obs(&ps, &r_unchecked),
         coq_obs(&ps, &r_parts),
         coq_opt(r_relay.as_ref(), |r| coq_obs(&ps, r)),
         coq_opt(r_relay2.as_ref(), |r| render2(r)),
+        coq_opt(r_txt.as_ref(), |r| coq_obs(&ps, r)),
     );
     (coq_in, out)
 }
